@@ -76,6 +76,50 @@ fn template(t: &mut Tape, spec: &SpecTable) -> Option<Vec<u8>> {
     Some(out)
 }
 
+
+/// reading starts at a (global) master, further global masters follow, and the first non-global element arrives while they
+/// are still open by size: whatever the iterator decides, what it emits must stay well-nested and size-contained
+fn template_global_start(t: &mut Tape, spec: &SpecTable) -> Option<Vec<u8>> {
+    let gm: Vec<&Elem> = spec.elems.iter().filter(|e| e.ty == Ty::Master && e.path.len() == 1 && e.is_global()).collect();
+    let non_global: Vec<&Elem> = spec.elems.iter().filter(|e| !e.is_global()).collect();
+    if gm.is_empty() || non_global.is_empty() {
+        return None;
+    }
+    let depth = 1 + t.below(3);
+    let x = non_global[t.below(non_global.len())];
+    let mut inner = if x.ty == Ty::Master {
+        let mut v = id_bytes(x.id);
+        v.push(0x80);
+        v
+    } else {
+        let mut po = PayOpts { big_left: 0, huge: false, max_small: 3 };
+        ref_encode(&[Node::leaf(x.id, gen_payload(t, x.ty, &mut po))]).0
+    };
+    // a little more after it, inside the same ranges
+    let gl: Vec<&Elem> = spec.elems.iter().filter(|e| e.ty != Ty::Master && e.path.len() == 1 && e.is_global()).collect();
+    if !gl.is_empty() && t.chance(1, 2) {
+        let l = gl[t.below(gl.len())];
+        let mut po = PayOpts { big_left: 0, huge: false, max_small: 3 };
+        inner.extend_from_slice(&ref_encode(&[Node::leaf(l.id, gen_payload(t, l.ty, &mut po))]).0);
+    }
+    for _ in 0..depth {
+        let g = gm[t.below(gm.len())];
+        let mut h = id_bytes(g.id);
+        if t.chance(1, 2) {
+            let w = 1 + t.below(4);
+            h.extend_from_slice(&ref_vint((1u64 << (7 * w)) - 1, w).unwrap());
+        } else {
+            let extra = t.below(3) as u64;
+            h.extend_from_slice(&ref_vint(inner.len() as u64 + extra, size_min_width(inner.len() as u64 + extra)).unwrap());
+        }
+        h.extend_from_slice(&inner);
+        inner = h;
+    }
+    let tail = t.below(4);
+    inner.extend_from_slice(&t.bytes(tail));
+    Some(inner)
+}
+
 fn stage(i: &Input, c: &mut Case) -> Result<(), String> {
     let mut t = Tape::new(i.tape());
     let use_template = t.chance(1, 8);
@@ -86,6 +130,14 @@ fn stage(i: &Input, c: &mut Case) -> Result<(), String> {
             m.origin = Origin::Adversarial;
             m.mutations = vec!["template_root_inside_known_child_of_unknown"];
             c.label("template_outer_element_inside_known_child_of_unknown");
+        }
+    }
+    if !use_template && t.chance(1, 10) {
+        if let Some(b) = template_global_start(&mut t, m.spec.table()) {
+            m.bytes = b;
+            m.origin = Origin::MidDocument;
+            m.mutations = vec!["template_start_inside_global_masters"];
+            c.label("template_first_non_global_element_inside_open_global_masters");
         }
     }
     let capacity = if t.chance(1, 3) { Some(*t.pick(&[16usize, 24, 33])) } else { None };
@@ -119,7 +171,7 @@ pub const STAGES: &[Stage] = &[Stage { name: "structure", f: stage }];
 
 pub fn run(rc: &mut RunCtx) {
     rc.run_pt(STAGES[0], rc.pick(240_000, 5_000_000), (96, 500));
-    for l in ["implied_ancestors", "mixed_known_unknown", "input_mutated", "input_mid_document", "ended_cleanly", "ended_in_error", "template_outer_element_inside_known_child_of_unknown"] {
+    for l in ["implied_ancestors", "mixed_known_unknown", "input_mutated", "input_mid_document", "ended_cleanly", "ended_in_error", "template_outer_element_inside_known_child_of_unknown", "template_first_non_global_element_inside_open_global_masters"] {
         rc.require_label("structure", l, 10_000);
     }
     if !rc.quick() {
